@@ -1501,3 +1501,47 @@ func ruleZ18(c *Ctx) {
 	}
 	c.ok("Z18", "fits predicates|no marker value", "", fmt.Sprintf("%d equality tests on an immediate", n))
 }
+
+// ---------------------------------------------------------------------------------------
+// Z4: no address is a marker for "no target"
+// ---------------------------------------------------------------------------------------
+
+func ruleZ4(c *Ctx) {
+	c.doc("Z4", "the branch emitters (and the helpers that parse their operand) never test the parsed target address for equality with a constant: every address, 0 included, is a legal target, and an unresolved label is reported by pass 2 (rule U7), not recognised by its value")
+	n := 0
+	seenFn := map[*ssa.Function]bool{}
+	for _, fn := range []string{"handleJcc", "handleCALL"} {
+		f := c.L.SSAFunc("internal/codegen", fn)
+		if f == nil {
+			c.anchorMissing("Z4", "internal/codegen."+fn)
+			continue
+		}
+		for _, g := range unitOf(f, 2) {
+			if seenFn[g] {
+				continue
+			}
+			seenFn[g] = true
+			for _, b := range g.Blocks {
+				for _, in := range b.Instrs {
+					bo, ok := in.(*ssa.BinOp)
+					if !ok || (bo.Op != token.EQL && bo.Op != token.NEQ) {
+						continue
+					}
+					for _, pair := range [][2]ssa.Value{{bo.X, bo.Y}, {bo.Y, bo.X}} {
+						k, isK := pair[1].(*ssa.Const)
+						if !isK || !isIntConst(k) {
+							continue
+						}
+						call := parseCallOf(pair[0])
+						if call == nil {
+							continue
+						}
+						n++
+						c.fail("Z4", fmt.Sprintf("%s|parsed target compared with %d#%d", shortName(g), k.Int64(), n), c.L.Pos(instrPos(in)), fmt.Sprintf("the parsed branch target is tested for (in)equality with %d: a branch to that address is treated differently from a branch to any other (refused, or taken for an unresolved label)", k.Int64()))
+					}
+				}
+			}
+		}
+	}
+	c.ok("Z4", "branch emitters|no marker address", "", fmt.Sprintf("%d equality tests on a parsed target", n))
+}
